@@ -105,3 +105,51 @@ B('c01-budget-via-local', 'C01', SQP,
   "            budget = max_ops_evaluated\n            state = VMState(scoped_names, 0, budget)")
 B('c01-explicit-increment', 'C01', AST,
   "        state.ops_evaluated += 1\n", "        state.ops_evaluated = state.ops_evaluated + 1\n")
+
+# =============================================================================== C09
+IFE = "        cond = self.cond.eval(state)\n        return self.op1.eval(state) if cond else self.op2.eval(state)"
+M('c09-ifelse-eager', 'C09', 'C09.R1', AST, IFE,
+  "        cond = self.cond.eval(state)\n        a = self.op1.eval(state)\n        b = self.op2.eval(state)\n        return a if cond else b")
+M('c09-or-eager', 'C09', 'C09.R1', AST, "        if self.op != 'and' and self.op != 'or':", "        if self.op != 'and':")
+M('c09-and-bool-result', 'C09', 'C09.R1', AST,
+  "            return op1 and self.op2.eval(state)", "            return bool(op1 and self.op2.eval(state))")
+M('c09-and-false-result', 'C09', 'C09.R1', AST,
+  "            return op1 and self.op2.eval(state)", "            return self.op2.eval(state) if op1 else False")
+M('c09-args-reversed', 'C09', 'C09.R1', AST,
+  "            arg.eval(state) for arg in self.args\n        ]", "            arg.eval(state) for arg in self.args[::-1]\n        ][::-1]")
+M('c09-unary-twice', 'C09', 'C09.R1', AST, "            return -op1", "            return -self.op1.eval(state)")
+M('c09-dict-value-first', 'C09', 'C09.R1', AST,
+  "        return {\n            _dict_key_cast(k.eval(state)): v.eval(state) for k, v in self.d\n        }",
+  "        res = {}\n        for k, v in self.d:\n            val = v.eval(state)\n            res[_dict_key_cast(k.eval(state))] = val\n        return res")
+M('c09-slice-stop-first', 'C09', 'C09.R2', AST,
+  "        return slice(\n            safe_cast(self.start.eval(state), int),\n            safe_cast(self.stop.eval(state), int),",
+  "        stop = safe_cast(self.stop.eval(state), int)\n        return slice(\n            safe_cast(self.start.eval(state), int),\n            stop,")
+M('c09-binop-template-swapped', 'C09', 'C09.R2', RUL, "        p[0] = BinOp(p[2], p[1], p[3])", "        p[0] = BinOp(p[2], p[3], p[1])")
+M('c09-ifexpr-template-swapped', 'C09', 'C09.R1', RUL, "IfExprOp(cond=p[3], op1=p[1], op2=p[5])", "IfExprOp(cond=p[1], op1=p[3], op2=p[5])")
+M('c09-arglist-reversed', 'C09', 'C09.R2', RUL, "        p[0] = p[1] + [p[3]]\n    else:\n        p[0] = [p[1]]\n\n\ndef p_arglist_def",
+  "        p[0] = [p[3]] + p[1]\n    else:\n        p[0] = [p[1]]\n\n\ndef p_arglist_def")
+M('c09-setitem-args-order', 'C09', 'C09.R2', RUL, "args=[p[1], p[3], p[6]])", "args=[p[1], p[6], p[3]])")
+M('c09-code-reversed', 'C09', 'C09.R1', AST, "        for line in self.lines:", "        for line in reversed(self.lines):")
+M('c09-code-insert-front', 'C09', 'C09.R2', RUL, "p.lexer.ast.lines.append(p[3])", "p.lexer.ast.lines.insert(0, p[3])")
+M('c09-cond-twice', 'C09', 'C09.R1', AST, IFE,
+  "        cond = self.cond.eval(state)\n        return self.op1.eval(state) if self.cond.eval(state) else self.op2.eval(state)")
+M('c09-assign-skips-value', 'C09', 'C09.R1', AST,
+  "        value = self.value.eval(state)\n        state.names[self.name] = copy.deepcopy(value)",
+  "        value = self.value.eval(state) if self.name != '_' else None\n        state.names[self.name] = copy.deepcopy(value)")
+
+B('c09-ifelse-statement-form', 'C09', AST, IFE,
+  "        cond = self.cond.eval(state)\n        if cond:\n            return self.op1.eval(state)\n        return self.op2.eval(state)")
+B('c09-and-early-return', 'C09', AST,
+  "            return op1 and self.op2.eval(state)", "            if not op1:\n                return op1\n            return self.op2.eval(state)")
+B('c09-rhs-helper', 'C09', edits=[
+  (AST, "            op2 = self.op2.eval(state)\n        else:\n            op2 = None\n",
+        "            op2 = self._rhs(state)\n        else:\n            op2 = None\n"),
+  (AST, "    op: str\n    op1: Op\n    op2: Op\n\n    def eval(self, state: VMState):\n        super().eval(state)\n\n        op1 = self.op1.eval(state)",
+        "    op: str\n    op1: Op\n    op2: Op\n\n    def _rhs(self, state: VMState):\n        return self.op2.eval(state)\n\n    def eval(self, state: VMState):\n        super().eval(state)\n\n        op1 = self.op1.eval(state)"),
+])
+B('c09-args-loop', 'C09', AST,
+  "        args = [\n            arg.eval(state) for arg in self.args\n        ]",
+  "        args = []\n        for arg in self.args:\n            args.append(arg.eval(state))")
+B('c09-slice-locals', 'C09', AST,
+  "        return slice(\n            safe_cast(self.start.eval(state), int),\n            safe_cast(self.stop.eval(state), int),\n            safe_cast(self.step.eval(state), int),\n        )",
+  "        a = safe_cast(self.start.eval(state), int)\n        b = safe_cast(self.stop.eval(state), int)\n        c = safe_cast(self.step.eval(state), int)\n        return slice(a, b, c)")
